@@ -405,12 +405,12 @@ func TestVFC20Regress(t *testing.T) {
 		return append(plan, total-1)
 	}
 	shapes := map[string][]int{
-		"three_lines":       {150, 28, 28},
-		"one_line":          {200},
-		"max_line_at_edge":  append([]int{300, 9000, 9000, vfC20MaxLine}, fill(vfC20Window-vfC20Limit)...),
-		"max_line_reinit":   append([]int{300, 9000, 9000, vfC20MaxLine}, fill(vfC20Window-vfC20Limit+1)...),
+		"three_lines":        {150, 28, 28},
+		"one_line":           {200},
+		"max_line_at_edge":   append([]int{300, 9000, 9000, vfC20MaxLine}, fill(vfC20Window-vfC20Limit)...),
+		"max_line_reinit":    append([]int{300, 9000, 9000, vfC20MaxLine}, fill(vfC20Window-vfC20Limit+1)...),
 		"exactly_one_window": fill(vfC20Window),
-		"window_plus_two":   fill(vfC20Window + 2),
+		"window_plus_two":    fill(vfC20Window + 2),
 	}
 	names := make([]string, 0, len(shapes))
 	for name := range shapes {
